@@ -464,6 +464,7 @@ impl Ohkami {
                     (connection, addr)
                 }
             };
+            #[cfg(ohkami_verif)] crate::__verif_sched__::sched("A1");
 
             let session = Session::new(
                 router.clone(),
